@@ -124,6 +124,10 @@ pub fn decode(t: &mut Tape) -> NetCase {
         if t.chance(1, 4) {
             opts.push(t.choose(&["document", "xhr", "script", "~xhr", "domain=site.org", "3p", "1p", "important", "image", "script,~image", "~image,script", "xhr,~script", "~document"]).to_string());
         }
+        // option order carries no meaning
+        if opts.len() > 1 && t.chance(1, 2) {
+            opts.rotate_left(1);
+        }
         rules.push(format!("{}${}", p, opts.join(",")));
     }
     for _ in 0..t.pick(3) {
